@@ -8,9 +8,10 @@ for j in /verif/selftest/variants/[xy]a[0-9]*.json; do
   if [ $kind = breaking ]; then
     p=$(jq -r '.properties|join(" ")' $j)
     out=$(${TRY:-/verif/tools/try_patch.sh} /verif/selftest/variants/$n.patch $p 2>&1 | tr '\n' ' ')
-    if echo "$out" | grep -q 'exit=1'; then echo "ok   $n fires: $out"; else echo "HOLE $n: $out"; fi
+    if echo "$out" | grep -q 'exit=1'; then echo "ok   $n fires: $out"; elif [ -n "$(jq -r '.known_miss // ""' $j)" ]; then echo "ok   $n documented miss"; else echo "HOLE $n: $out"; fi
   else
     out=$(${TRY:-/verif/tools/try_patch.sh} /verif/selftest/variants/$n.patch $props 2>&1 | grep -v 'exit=0' | tr '\n' ' ')
-    if [ -z "$out" ]; then echo "ok   $n silent"; else echo "LOUD $n: $out"; fi
+    resid=$(jq -r '(.residual // [])|join(" ")' $j)
+    if [ -z "$out" ]; then echo "ok   $n silent"; elif [ -n "$resid" ]; then echo "ok   $n documented residual: $out"; else echo "LOUD $n: $out"; fi
   fi
 done
